@@ -175,8 +175,21 @@ Definition model_op (c : pgcase) : option (outcome (list N)) :=
       | 12 => Some (Ok (sN_read 0 st512_default))
       | _ => None
       end
-  | 37 => if ty =? 10 then Some (Ok [if st128_eq (s128_from 0 a) (s128_from 1 b) then 1 else 0])
-          else None
+  | 37 =>
+      (* derived PartialEq of vec256/512_storage: the arrays of vec128_storage compared element-wise *)
+      let eqs (x y : list st128) := forallb (fun p : st128 * st128 => st128_eq (fst p) (snd p)) (combine x y) in
+      match ty with
+      | 10 => Some (Ok [if st128_eq (s128_from 0 a) (s128_from 1 b) then 1 else 0])
+      | 11 => Some (Ok [if eqs (sN_from 0 a) (sN_from 2 b) then 1 else 0])
+      | 12 => Some (Ok [if eqs (sN_from 0 a) (sN_from 1 b) then 1 else 0])
+      | _ => None
+      end
+  | 47 => (* UnsafeFrom<[W; n]> of x2 / x4 = from_lanes on lanes built with from_lanes (words) *)
+      match ty with
+      | 0 | 1 | 2 => None
+      | _ => Some (Ok (enc ty (xn_from_lanes
+                 (map (fun c => g_from_lanes (words_le (vt_k (ty_base ty)) c)) (chunks16 a)))))
+      end
   | 40 => if has_storebytes ty then oenc ty (m_read p ty false a) else None
   | 41 => if has_storebytes ty then oenc ty (m_read p ty true a) else None
   | 42 => if has_storebytes ty then Some (m_write p ty false (dec ty a) (N.to_nat k)) else None
@@ -230,7 +243,7 @@ Definition spec_op (c : pgcase) : option (list N) :=
   | 24 => let f := if k =? 1230 then @Lanes.shuffle1230 N else if k =? 2301 then @Lanes.shuffle2301 N
                    else @Lanes.shuffle3012 N in
           Some (bytes_le kb (Lanes.per_lane4 f wa))
-  | 30 | 51 => Some a
+  | 30 | 47 | 51 => Some a
   | 31 | 38 =>
       if k <? (if pg_op c =? 38 then 2 else nelem) then
         if word_elems ty && (pg_op c =? 31) then Some (bytes_le kb [Lanes.v_extract wa (N.to_nat k)])
